@@ -330,14 +330,37 @@ def wrap_associate(case, pick):
     return case
 
 
-def cases(profile, assoc_pct=30):
+def vary_loop_bounds(case, pick):
+    """
+    the generator's DO bounds are literals (or ``n``): make the upper bound of some loops of the kernel *read* an
+    intent(in) integer scalar without changing its value, ``hi`` -> ``hi + (x - x)``. Returns a modified copy.
+    """
+    import copy
+    ins = [d['name'] for d in case['entry']['args'] if d['type'] == 'int' and not d['dims'] and d.get('intent') == 'in']
+    if not ins:
+        return case
+    case = copy.deepcopy(case)
+    _, _, r = kernel_location(case)
+    for _, st_ in walk_stmts(r['body']):
+        if st_[0] == 'do' and pick(0, 99) < 40:
+            x = ins[pick(0, len(ins) - 1)]
+            st_[3] = ['b', '+', st_[3], ['p', ['b', '-', ['d', [[x, None]]], ['d', [[x, None]]]]]]
+    return case
+
+
+def cases(profile, assoc_pct=30, bounds_pct=50):
     from hypothesis import strategies as st
 
     @st.composite
     def build(draw):
         case = draw(gen.cases(profile))
+
+        def pick(lo, hi):
+            return draw(st.integers(lo, hi)) if hi > lo else lo
+        if draw(st.integers(0, 99)) < bounds_pct:
+            case = vary_loop_bounds(case, pick)
         if draw(st.integers(0, 99)) < assoc_pct:
-            case = wrap_associate(case, lambda lo, hi: draw(st.integers(lo, hi)) if hi > lo else lo)
+            case = wrap_associate(case, pick)
         return case
     return build()
 
